@@ -168,7 +168,8 @@ PROPS = {
     },
     "C03": {
         "level": "proof",
-        "verus": ["lexer"],
+        "verus": ["lexer", "cursor"],
+        "frame": ["cursor_fields_written_only_by_primitives"],
         "kani": ["apollo-parser/lexer.rs", "apollo-parser/cursor.rs"],
         "technique": "Verus contract on the extracted lexer state machine (Cursor::advance) over a ghost cursor model (unbounded) + Kani loop-free harnesses over every char for the lookup tables",
         "explanation": "Verus proves on the whole extracted state machine Cursor::advance / eof / done / unterminated_spread_operator, for every source text: each call hands out exactly the next "
@@ -181,7 +182,8 @@ PROPS = {
                        "q_open / q_body / q_backslash / q_unicode over the consumed prefix) or starts and ends with `\"\"\"`; Cursor::done returns Ok iff no error was recorded for the token. "
                        "Kani proves for every char value that the lookup tables (Punctuator kinds, NameStart) and the character classes equal the October 2021 tables; these are the contracts "
                        "the Verus unit assumes for lookup::*.",
-        "assumptions": ["the ghost model of Cursor's primitives bump / eatc / current_str / prev_str / drain over CharIndices (lexer/cursor.rs; written from their bodies; validated only by the BOUNDED Kani harness c03_cursor_primitives_match_model: 7 source strings, all 4-call sequences)",
+        "assumptions": ["Cursor's primitives bump / eatc / current_str / prev_str / drain / add_err / new (lexer/cursor.rs) are no longer assumed: unit `cursor` proves their extracted bodies against exactly the contracts the state machine's proof uses (shared clause lists), with a representation invariant tying index / offset / pending / the CharIndices iterator to the ghost model. Assumed instead: std's documented behaviour of CharIndices::next, str::len, byte-range slicing / str::get on char boundaries (shims)",
+                        "the representation invariant holds whenever a primitive is called: established by Cursor::new, preserved by every primitive (proved), and nothing else writes the fields (frame check cursor_fields_written_only_by_primitives)",
                         "`&self.source[a..b]` is rewritten to str_slice(self.source, a, b) whose precondition is 'a <= b, both char boundaries' (std semantics of str slicing, assumed)",
                         "u32::from_str_radix(s, 16) is Ok for 1..=8 hex digits (std, assumed)"],
         "not_decided": ["block strings: only the `\"\"\"` delimiters are proved, not the BlockStringCharacter grammar (where the closing delimiter may and may not appear)",
@@ -220,7 +222,7 @@ PROPS = {
     },
     "C01": {
         "level": "proof",
-        "verus": ["parser_core", "limits", "lexer", "lexer_next"],
+        "verus": ["parser_core", "limits", "lexer", "lexer_next", "cursor"],
         "frame": ["peek_while_is_the_plain_loop", "only_lexer_next_makes_limit_errors"],
         "explanation": "Verus proves on the extracted lexer state machine (termination, cursor preconditions) and on the WHOLE extracted parser -- the 26 Parser primitives, all 66 grammar functions of parser/grammar/*.rs "
                        "including document() and select_definition, and the entry points Parser::parse / parse_type / parse_selection_set: no panic (pop's expect is unreachable: every caller has a "
@@ -230,20 +232,20 @@ PROPS = {
                        "'iteration must advance parsing' demands -- so parsing terminates; the mutual recursion selection_set -> selection -> field / inline_fragment -> selection_set and value -> list_value / object_value -> value "
                        "decreases (remaining input, rank); recursion depth is bounded by the recursion limit; recursion bookkeeping is balanced (document()'s assert_eq! on it is proved, not assumed); "
                        "expect_end_of_input adds nothing to the tree after the root node was closed.",
-        "assumptions": ['the Lexer contract in the parser_core prelude (items carry the remaining text in order; a measure decreases per item; None only after the limit or at the end; the EOF token is empty and comes when the text is used up; a `{` token is the text "{") is PROVED for the real Lexer::next / Lexer::new in unit `lexer_next`, from the contract of Cursor::advance that unit `lexer` proves; the clause texts are single Python constants shared by the assuming and the proving unit (assume/guarantee by identical text); what remains assumed at the bottom is the ghost model of Cursor\'s six primitives over CharIndices and "advance never yields a limit error" (frame check)', 'Name tokens produced by the lexer satisfy the Name grammar, so grammar::name::validate_name never reports (proved for Cursor::advance in unit lexer; validate_name itself is a no-op shim here)', 'Parser::peek_n / peek_token_n / peek_data_n (iterator chain over a CLONE of the lexer, `&self`): results unconstrained, parser state untouched', 'rowan GreenNodeBuilder: token() appends text, start/finish/wrap add none; Drop of NodeGuard has no spec', 'recursion limit < usize::MAX'],
+        "assumptions": ['the Lexer contract in the parser_core prelude (items carry the remaining text in order; a measure decreases per item; None only after the limit or at the end; the EOF token is empty and comes when the text is used up; a `{` token is the text "{") is PROVED for the real Lexer::next / Lexer::new in unit `lexer_next`, from the contract of Cursor::advance that unit `lexer` proves; the clause texts are single Python constants shared by the assuming and the proving unit (assume/guarantee by identical text); the primitives of Cursor are proved in unit `cursor`; what remains assumed at the bottom is std (CharIndices::next, str slicing on char boundaries) and "advance never yields a limit error" (frame check)', 'Name tokens produced by the lexer satisfy the Name grammar, so grammar::name::validate_name never reports (proved for Cursor::advance in unit lexer; validate_name itself is a no-op shim here)', 'Parser::peek_n / peek_token_n / peek_data_n (iterator chain over a CLONE of the lexer, `&self`): results unconstrained, parser state untouched', 'rowan GreenNodeBuilder: token() appends text, start/finish/wrap add none; Drop of NodeGuard has no spec', 'recursion limit < usize::MAX'],
         "not_decided": ["the three-unit chain lexer -> lexer_next -> parser_core is composed by shared clause text (each unit assumes exactly the text the previous one discharges), not inside one Verus run",
                         "the closure combinators peek_while / peek_while_kind / parse_separated_list are verified in beta-reduced form at each call site (frame check pins their bodies), not as generic functions; their debug_assert!(before != current_token) is replaced by the stronger 'fuel strictly decreases'",
                         "rowan's own assertions (single root: was the panic fixed in d0c8925; not visible to a contract), actual stack size per frame", "apollo_compiler::parser wrappers"],
     },
     "C02": {
         "level": "other",   # deductive verification, but one obligation is a KNOWN FINDING (genuine defect): discharged < obligations, so not a proof-level record
-        "verus": ["parser_core", "lexer", "lexer_next"],
+        "verus": ["parser_core", "lexer", "lexer_next", "cursor"],
         "frame": ["peek_while_is_the_plain_loop", "only_lexer_next_makes_limit_errors"],
         "explanation": "Contract-based deductive verification (Verus) with ONE KNOWN FINDING, hence not claimed at proof level. Conserved quantity all_text = tree text + queued tokens + look-ahead token + unread input: Verus proves every parser primitive "
                        "and EVERY grammar function (all of parser/grammar/*.rs) conserves it in order (nothing lost, nothing duplicated, nothing reordered); document() is proved to end with the queue flushed, the look-ahead "
                        "empty (EOF) and the lexer exhausted unless the token limit was hit; and Parser::parse is proved to return a tree whose text IS the input when no token limit was hit (in-body obligation) and a prefix of it always (postcondition). ty::parse violates it at one exit (known finding: the token "
                        "after `[` is dropped when no type starts there).",
-        "assumptions": ['the Lexer contract in the parser_core prelude (items carry the remaining text in order; a measure decreases per item; None only after the limit or at the end; the EOF token is empty and comes when the text is used up; a `{` token is the text "{") is PROVED for the real Lexer::next / Lexer::new in unit `lexer_next`, from the contract of Cursor::advance that unit `lexer` proves; the clause texts are single Python constants shared by the assuming and the proving unit (assume/guarantee by identical text); what remains assumed at the bottom is the ghost model of Cursor\'s six primitives over CharIndices and "advance never yields a limit error" (frame check)', 'Name tokens produced by the lexer satisfy the Name grammar, so grammar::name::validate_name never reports (proved for Cursor::advance in unit lexer; validate_name itself is a no-op shim here)', 'Parser::peek_n / peek_token_n / peek_data_n (iterator chain over a CLONE of the lexer, `&self`): results unconstrained, parser state untouched', 'rowan GreenNodeBuilder: token() appends text, start/finish/wrap add none; Drop of NodeGuard has no spec', 'recursion limit < usize::MAX'],
+        "assumptions": ['the Lexer contract in the parser_core prelude (items carry the remaining text in order; a measure decreases per item; None only after the limit or at the end; the EOF token is empty and comes when the text is used up; a `{` token is the text "{") is PROVED for the real Lexer::next / Lexer::new in unit `lexer_next`, from the contract of Cursor::advance that unit `lexer` proves; the clause texts are single Python constants shared by the assuming and the proving unit (assume/guarantee by identical text); the primitives of Cursor are proved in unit `cursor`; what remains assumed at the bottom is std (CharIndices::next, str slicing on char boundaries) and "advance never yields a limit error" (frame check)', 'Name tokens produced by the lexer satisfy the Name grammar, so grammar::name::validate_name never reports (proved for Cursor::advance in unit lexer; validate_name itself is a no-op shim here)', 'Parser::peek_n / peek_token_n / peek_data_n (iterator chain over a CLONE of the lexer, `&self`): results unconstrained, parser state untouched', 'rowan GreenNodeBuilder: token() appends text, start/finish/wrap add none; Drop of NodeGuard has no spec', 'recursion limit < usize::MAX'],
         "not_decided": ["UTF-8 boundaries of token ranges (token data are &str slices: Rust's type invariant, not proved)", "the lexer half of losslessness is proved in unit `lexer` and assumed here (see assumptions)"],
     },
     "C07": {
@@ -257,7 +259,7 @@ PROPS = {
                        "(field_set / selection_set / every production below them: no error means the open-bracket counts of `{` `(` `[` are unchanged), so `a }` or `{ a` cannot be accepted. The tree reports exactly the parser's errors. "
                        "Compiler side (unit parse_common): every parser error whose offset fits 32 bits becomes exactly one diagnostic, in order (SyntaxError / ParserLimit), so a syntax error is never dropped on the way to "
                        "apollo_compiler::parser::parse_type / parse_field_set, which return Err iff the diagnostic list is non-empty.",
-        "assumptions": ['the Lexer contract in the parser_core prelude (items carry the remaining text in order; a measure decreases per item; None only after the limit or at the end; the EOF token is empty and comes when the text is used up; a `{` token is the text "{") is PROVED for the real Lexer::next / Lexer::new in unit `lexer_next`, from the contract of Cursor::advance that unit `lexer` proves; the clause texts are single Python constants shared by the assuming and the proving unit (assume/guarantee by identical text); what remains assumed at the bottom is the ghost model of Cursor\'s six primitives over CharIndices and "advance never yields a limit error" (frame check)', 'Name tokens produced by the lexer satisfy the Name grammar, so grammar::name::validate_name never reports (proved for Cursor::advance in unit lexer; validate_name itself is a no-op shim here)', 'Parser::peek_n / peek_token_n / peek_data_n (iterator chain over a CLONE of the lexer, `&self`): results unconstrained, parser state untouched', 'rowan GreenNodeBuilder: token() appends text, start/finish/wrap add none; Drop of NodeGuard has no spec', 'recursion limit < usize::MAX'],
+        "assumptions": ['the Lexer contract in the parser_core prelude (items carry the remaining text in order; a measure decreases per item; None only after the limit or at the end; the EOF token is empty and comes when the text is used up; a `{` token is the text "{") is PROVED for the real Lexer::next / Lexer::new in unit `lexer_next`, from the contract of Cursor::advance that unit `lexer` proves; the clause texts are single Python constants shared by the assuming and the proving unit (assume/guarantee by identical text); the primitives of Cursor are proved in unit `cursor`; what remains assumed at the bottom is std (CharIndices::next, str slicing on char boundaries) and "advance never yields a limit error" (frame check)', 'Name tokens produced by the lexer satisfy the Name grammar, so grammar::name::validate_name never reports (proved for Cursor::advance in unit lexer; validate_name itself is a no-op shim here)', 'Parser::peek_n / peek_token_n / peek_data_n (iterator chain over a CLONE of the lexer, `&self`): results unconstrained, parser state untouched', 'rowan GreenNodeBuilder: token() appends text, start/finish/wrap add none; Drop of NodeGuard has no spec', 'recursion limit < usize::MAX'],
         "not_decided": ["that the tokens consumed by parse_selection_set form exactly ONE selection set (selection() and everything below it is now verified for conservation / termination, but the selection GRAMMAR is not specified)",
                         "the last step of the compiler-side mapping: parse_type / parse_field_set turn a non-empty DiagnosticList into Err (errors.into_result(): closures, not extracted)"],
     },
